@@ -261,6 +261,33 @@ def desugar_any_all(call: ast.Call) -> Optional[ast.FunctionDef]:
     return fn
 
 
+def genexp_to_generator(fn: ast.FunctionDef) -> Optional[ast.FunctionDef]:
+    """``def f(..): <stmts>; return (E for V in I if C)`` -> the equivalent generator function
+    ``<stmts>; for V in I: if C: yield E`` (single ``for`` clause, the only ``return`` of the function)."""
+    rets = [n for n in walk_local(fn) if isinstance(n, ast.Return)]
+    if len(rets) != 1 or not fn.body or fn.body[-1] is not rets[0]:
+        return None
+    g = rets[0].value
+    if not isinstance(g, (ast.GeneratorExp, ast.ListComp)) or len(g.generators) != 1 or g.generators[0].is_async:
+        return None
+    gen = g.generators[0]
+    ln = rets[0].lineno
+    inner: ast.stmt = ast.Expr(value=ast.Yield(value=g.elt))
+    for c in reversed(gen.ifs):
+        inner = ast.If(test=c, body=[inner], orelse=[])
+    loop = ast.For(target=gen.target, iter=gen.iter, body=[inner], orelse=[])
+    new = copy.copy(fn)
+    new.body = list(fn.body[:-1]) + [loop]
+    for x in ast.walk(loop):
+        if not hasattr(x, "lineno"):
+            x.lineno = ln
+            x.col_offset = 0
+        if not hasattr(x, "end_lineno"):
+            x.end_lineno = ln
+            x.end_col_offset = 0
+    return new
+
+
 class Inliner:
     def __init__(self, program, reference: Optional[Set[str]]):
         self.P = program
@@ -305,6 +332,12 @@ class Inliner:
         t = res.targets[0]
         if not self.is_new(t):
             return None
+        if usage == "for" and isinstance(t.node, ast.FunctionDef) and not any(isinstance(n, (ast.Yield, ast.YieldFrom)) for n in walk_local(t.node)):
+            g_ = genexp_to_generator(t.node)
+            if g_ is not None:
+                t2 = copy.copy(t)
+                t2.node = g_
+                t = t2
         why = self._why_not(root, t, site, call, stack, usage)
         if why:
             if not (usage == "for" and why == "not a generator"):   # retried as a plain value by the caller
